@@ -80,6 +80,38 @@ theorem C14_legacy_loads (a : AccState) (h : WF a) :
       some { a with ps := { a.ps with props := a.ps.paired.map fun e => (e.1, 1) } } :=
   load_persist_legacy a h
 
+/-- Oldest generation (files that predate permissions also predate the recorded identifier bytes):
+    for every saved state, the document lacking BOTH `client_properties` and `client_uuid_to_bytes`
+    loads with the same identity and keys, permission 1 (admin) for every paired controller and an
+    empty `uuid_to_bytes`. Whether `accessories_hash` is present does not matter (`persist a` carries
+    any value of it, `none` included, and an absent member reads as `none`). -/
+theorem C14_legacy_no_id_bytes (a : AccState) (h : WF a) :
+    load { persist a with clientProperties := none, clientUuidToBytes := none } =
+      some { a with ps := { a.ps with props := a.ps.paired.map fun e => (e.1, 1), u2b := [] } } :=
+  load_persist_oldest a h
+
+/-- … and whenever ANY document without `client_properties` and `client_uuid_to_bytes` loads, all its
+    controllers are admin and no identifier bytes are recorded. -/
+theorem C14_legacy_no_id_bytes_any (d : Doc) (a : AccState) (hd : d.clientProperties = none)
+    (hu : d.clientUuidToBytes = none) (h : load d = some a) :
+    (∀ u ∈ akeys a.ps.paired, isAdmin a.ps u = true) ∧ a.ps.u2b = [] := by
+  refine ⟨(C14_legacy d a hd h).2.2, ?_⟩
+  unfold load at h
+  simp only [hu, Option.getD_none] at h
+  split at h
+  · next P Y priv pub U _ _ _ _ hU =>
+    cases h
+    simp only [optMap, Option.some.injEq] at hU
+    subst hU
+    rfl
+  · cases h
+
+/-- Middle generation (permissions stored, identifier bytes not yet): every stored permission is
+    kept; only `uuid_to_bytes` is empty. -/
+theorem C14_middle_generation (a : AccState) (h : WF a) :
+    load { persist a with clientUuidToBytes := none } = some { a with ps := { a.ps with u2b := [] } } :=
+  load_persist_middle a h
+
 /-- Behaviour after a restart: on the reloaded state the list-pairings answer, the admin test and
     the long-term key looked up by pair-verify are those of the saved state. -/
 theorem C14_behaviour (a : AccState) (h : WF a) :
